@@ -427,9 +427,21 @@ def oracle(chk):
             desc = {"globals": gmode, "locals": lmode, "prior_hy": dict(prior_kind),
                     "source": src, "reader": "read-many" if use_many else "read", "module": module_arg,
                     "call_index": ci, "earlier_calls": history[-4:]}
-            how = ("PYTHONPATH=%s python -c \"import hy; G=%s; print(hy.eval(hy.%s(%r)%s)); print('hy' in G)\""
-                   % (vlib.REPO, "{'a':1,'b':'bee','lst':[1,2,3]}", "read_many" if use_many else "read", src,
-                      ", G" if G is not None else ""))
+            lit = {"object": "object()", "None": "None", "zero": "0", "empty-str": "''", "False": "False",
+                   "empty-tuple": "()", "lookalike": "type('L',(),{'mangle':staticmethod(hy.mangle),'models':hy.models,'eval':staticmethod(hy.eval)})()"}
+
+            def dlit(nm):
+                base = "{'a':1,'b':'bee','lst':[1,2,3]" if (nm == "G" or G is None) else "{"
+                pk = prior_kind.get(nm, "absent")
+                if pk != "absent":
+                    base += ("," if not base.endswith("{") else "") + "'hy':" + lit[pk]
+                return base + "}"
+            args = "" if (G is None and L is None) else (", G" if L is None else (", G, G" if L is G else (", G, L" if G is not None else ", locals=L")))
+            how = ("PYTHONPATH=%s python -c \"import hy; G=%s; L=%s; m=hy.%s(%r); "
+                   "print(hy.eval(m%s%s)); print(G.get('hy','<absent>'), L.get('hy','<absent>'))\"  # earlier calls of the session are in the input"
+                   % (vlib.REPO, dlit("G") if G is not None else "{}", dlit("L") if (L is not None and L is not G) else "{}",
+                      "read_many" if use_many else "read", src, args,
+                      (", module=%r" % module_arg) if module_arg is not None else ""))
             # --- the property
             for nm, d in (("G", G), ("L", L)):
                 if d is None:
